@@ -126,6 +126,7 @@ inductive Op where
   | ack                          -- client: ATT Handle Value Confirmation
   | cccd (on : Bool)             -- client writes the control point's CCCD
   | wheel                        -- observe the user handler
+  | reconnect                    -- link loss + a new (not bonded) connection to the same server
 deriving Repr, DecidableEq
 
 inductive Out where
@@ -172,6 +173,10 @@ def step (s : Sys) : Op → Sys × Out
   | .ack => ({ s with outstanding := false }, .ok)
   | .cccd on => ({ s with cccd := on }, .ok)
   | .wheel => (s, .wheel s.calls s.wheel)
+  -- src: server.hpp:client_disconnected (only frees the write queue) + a fresh
+  -- `channel_data_t` (empty notification queue, CCCDs 0); the control point handler is a member
+  -- of the server and is not touched
+  | .reconnect => ({ s with queued := false, outstanding := false, cccd := false }, .ok)
 
 /-- run a history, collecting the outputs -/
 def run (s : Sys) : List Op → Sys × List Out
